@@ -1,6 +1,9 @@
 //! vh: verification harness for a4lg/ffuzzy (runtime monitoring).
 //! Usage: vh <c01..c20|transcript|miri-corpus|c18-child|selfcheck> [options]
 
+#![allow(deprecated)]
+#![allow(clippy::all)]
+
 mod ctx;
 mod json;
 mod mon;
